@@ -85,7 +85,7 @@ def analyse(repo: Repo):
     pren = {params[0]: Rat.atom("y"), params[1]: Rat.atom("lmda"), params[2]: Rat.atom("w")}
 
     def collect(extra_env):
-        sc = StoreCollector(fn, FILE)
+        sc = StoreCollector(fn, FILE, track_cells=False)
         sc.env.update(pren)
         sc.env.update(extra_env)
         # renamed arrays must survive allocation statements
